@@ -231,6 +231,18 @@ def check(run: Run) -> None:
             dc = any(pol and isinstance(a, ast.Call) and isinstance(a.func, ast.Name) and a.func.id == "is_dataclass" for a, pol in fx.atoms)
             run.check(tup or dc, "C10.R6", vs, n, "refusal applies to a tuple literal or to a dictionary/dataclass value only", "a refusal in visit_Subscript is reachable for values other than tuple literals and dictionaries (e.g. list literals, arbitrary sequences): a valid expression such as [a, b][i] is refused instead of being passed through", "isinstance(t_node.value, ast.Tuple)")
     run.floor("C10.R6", n_r, 3, "refusals in visit_Subscript")
+    # the tuple-literal element is read only for an index known to be in range (else the designed ValueError): the exact bound
+    from .c18 import _bound_fact
+
+    elts_t = ("attr", ("attr", V, "value"), "elts")
+    n_idx = 0
+    for n in own_nodes(vs):
+        if isinstance(n, ast.Subscript) and isinstance(n.ctx, ast.Load) and fvs.cfg.has_node(n) and strip_sites(fvs.term_of(n.value)) == elts_t:
+            n_idx += 1
+            idx_t = strip_sites(fvs.term_of(n.slice))
+            ok_b = any(_bound_fact(fvs, a, pol, idx_t, elts_t) for a, pol in Facts(fvs, n).atoms)
+            run.check(ok_b, "C10.R6", vs, stmt_of(n), "tuple element read only for an index below len(elts)", f"{ast.unparse(n)} is evaluated without the fact index < len(elts) (the refusal's bound is off by one or missing): an index equal to the tuple's length escapes as IndexError instead of the designed ValueError", "if len(elts) <= index: raise ValueError")
+    run.floor("C10.R6", n_idx, 1, "reads of a tuple literal's element by constant index")
 
     # ---------------- R7: names bound by the lambda itself are never replaced by captured values
     run.rule("C10.R7", "capture rewriting leaves every name bound by an enclosing lambda / comprehension alone (all frames consulted)")
